@@ -23,7 +23,9 @@ package main
 import (
 	"bytes"
 	"context"
+	"encoding"
 	"encoding/binary"
+	"encoding/json"
 	"encoding/hex"
 	"fmt"
 	"io/ioutil"
@@ -31,6 +33,8 @@ import (
 	"net/http"
 	"os"
 	"regexp"
+	"runtime/debug"
+	"runtime/pprof"
 	"sort"
 	"strings"
 	"sync"
@@ -44,7 +48,7 @@ import (
 	"github.com/gauss-project/aurorafs/pkg/p2p/protobuf"
 	rmock "github.com/gauss-project/aurorafs/pkg/routetab/mock"
 	"github.com/gauss-project/aurorafs/pkg/sctx"
-	ldbstate "github.com/gauss-project/aurorafs/pkg/statestore/leveldb"
+	"github.com/gauss-project/aurorafs/pkg/shed/driver"
 	"github.com/gauss-project/aurorafs/pkg/storage"
 	"github.com/gogo/protobuf/proto"
 
@@ -64,6 +68,83 @@ const (
 	streamPyr   = "chunkpyramid"
 	nGhostsTopo = 12
 )
+
+// ---------------------------------------------------------------- state store
+
+// memState is the nodes' state store: the contract of statestore/leveldb (C18: a string-keyed map, BinaryMarshaler or
+// JSON values, ascending prefix iteration over a snapshot, so that a callback may write) without its 32 MiB write
+// buffer, which dominated the cost of a scenario (three nodes, six database opens).  Harness-supplied dependency.
+type memState struct {
+	mu sync.Mutex
+	m  map[string][]byte
+}
+
+func newMemState() *memState { return &memState{m: map[string][]byte{}} }
+
+func (s *memState) Get(key string, i interface{}) error {
+	s.mu.Lock()
+	data, ok := s.m[key]
+	s.mu.Unlock()
+	if !ok {
+		return storage.ErrNotFound
+	}
+	if u, ok := i.(encoding.BinaryUnmarshaler); ok {
+		return u.UnmarshalBinary(data)
+	}
+	return json.Unmarshal(data, i)
+}
+
+func (s *memState) Put(key string, i interface{}) error {
+	var b []byte
+	var err error
+	if m, ok := i.(encoding.BinaryMarshaler); ok {
+		if b, err = m.MarshalBinary(); err != nil {
+			return err
+		}
+	} else if b, err = json.Marshal(i); err != nil {
+		return err
+	}
+	s.mu.Lock()
+	s.m[key] = b
+	s.mu.Unlock()
+	return nil
+}
+
+func (s *memState) Delete(key string) error {
+	s.mu.Lock()
+	delete(s.m, key)
+	s.mu.Unlock()
+	return nil
+}
+
+func (s *memState) Iterate(prefix string, fn storage.StateIterFunc) error {
+	s.mu.Lock()
+	var keys []string
+	for k := range s.m {
+		if strings.HasPrefix(k, prefix) {
+			keys = append(keys, k)
+		}
+	}
+	sort.Strings(keys)
+	vals := make([][]byte, len(keys))
+	for i, k := range keys {
+		vals[i] = append([]byte(nil), s.m[k]...)
+	}
+	s.mu.Unlock()
+	for i, k := range keys {
+		stop, err := fn([]byte(k), vals[i])
+		if err != nil {
+			return err
+		}
+		if stop {
+			return nil
+		}
+	}
+	return nil
+}
+
+func (s *memState) DB() driver.BatchDB { return nil }
+func (s *memState) Close() error      { return nil }
 
 // ---------------------------------------------------------------- gate store
 
@@ -186,11 +267,12 @@ func newWorld(par map[string]interface{}, rng *rand.Rand, seed int64, logger log
 		func(protocol, stream string) bool { return stream == streamPyr })
 	for _, nm := range nodeNames {
 		addr := addrRand(rng)
-		st, err := ldbstate.NewInMemoryStateStore(logger)
-		if err != nil {
-			return nil, err
+		if nm == "C" && w.topo != "partial" && w.topo != "relay" {
+			// C takes no part in this topology: it is not built (its projection is that of a node without records)
+			w.names[addr.String()] = nm
+			continue
 		}
-		g := &gateStore{StateStorer: st}
+		g := &gateStore{StateStorer: newMemState()}
 		rt := rmock.NewMockRouteTable()
 		n, err := nodelite.NewWithOptions(w.board, addr, "", g, logger, nodelite.Options{Route: &rt})
 		if err != nil {
@@ -249,7 +331,9 @@ func newWorld(par map[string]interface{}, rng *rand.Rand, seed int64, logger log
 		return nil, fmt.Errorf("unknown topology %q", w.topo)
 	}
 	for _, nm := range nodeNames {
-		w.nodes[nm].n.Settle()
+		if w.nodes[nm] != nil {
+			w.nodes[nm].n.Settle()
+		}
 	}
 	w.hold.SetActive(true)
 	return w, nil
@@ -259,6 +343,9 @@ func (w *world) close() {
 	w.hold.SetActive(false)
 	for _, nm := range nodeNames {
 		wn := w.nodes[nm]
+		if wn == nil {
+			continue
+		}
 		// release anything still parked so that goroutines end
 		wn.gate.mu.Lock()
 		wn.gate.armed = ""
@@ -277,7 +364,9 @@ func (w *world) close() {
 	}
 	w.board.DisableHold()
 	for _, nm := range nodeNames {
-		w.nodes[nm].n.Close()
+		if w.nodes[nm] != nil {
+			w.nodes[nm].n.Close()
+		}
 	}
 }
 
@@ -416,6 +505,16 @@ func (w *world) projNode(wn *wnode) (map[string]interface{}, error) {
 	return r, nil
 }
 
+// absentNode is the projection of a node that was not built (it takes no part in the topology): no records at all.
+func (w *world) absentNode() map[string]interface{} {
+	zeros := make([]int, len(w.data))
+	return map[string]interface{}{"hasq": false, "un": []string{}, "ing": []string{}, "ed": []string{}, "pend": false, "sync": false,
+		"trig": []string{}, "pyr": false, "cmax": 0, "skey": false, "own": map[string]interface{}{"has": false, "len": 0, "bits": []int{}},
+		"nbr": []interface{}{}, "order": []string{}, "dkey": false, "disc": []interface{}{}, "srckey": false, "pyrsrc": "",
+		"src": []interface{}{}, "keys": []interface{}{}, "stored": zeros, "pst": false, "listed": false, "busy": false,
+		"pubdisc": 0, "pubsrv": 0, "pubsrc": 0, "pubpyrsrc": false, "init": "none", "crashed": false, "absent": true}
+}
+
 type heldView struct {
 	id   int
 	rec  map[string]interface{}
@@ -498,6 +597,10 @@ func (w *world) viewHeld() []heldView {
 func (w *world) project() (kit.Ev, error) {
 	st := map[string]interface{}{}
 	for _, nm := range nodeNames {
+		if w.nodes[nm] == nil {
+			st[nm] = w.absentNode()
+			continue
+		}
 		p, err := w.projNode(w.nodes[nm])
 		if err != nil {
 			return nil, err
@@ -517,6 +620,9 @@ func (w *world) signature() string {
 	var sb strings.Builder
 	fmt.Fprintf(&sb, "%d|", len(w.hold.List()))
 	for _, nm := range nodeNames {
+		if w.nodes[nm] == nil {
+			continue
+		}
 		fmt.Fprintf(&sb, "%d,", atomic.LoadInt32(&w.nodes[nm].init))
 	}
 	for _, p := range w.pend {
@@ -999,9 +1105,17 @@ func (w *world) inject(victim *wnode, shape string, ev kit.Ev) error {
 // ---------------------------------------------------------------- main
 
 func runAll(scs []kit.Scenario, out *kit.Out) error {
+	if pf := os.Getenv("VERIF_PPROF"); pf != "" {
+		if f, err := os.Create(pf); err == nil {
+			_ = pprof.StartCPUProfile(f)
+			defer pprof.StopCPUProfile()
+		}
+	}
+	// every node's local store allocates a 32 MiB write buffer: keep the heap of the child bounded
+	debug.SetMemoryLimit(5 << 29)
 	logger := logging.New(ioutil.Discard, 0)
 	seed := kit.Seed()
-	workers := 16
+	workers := 12
 	if s := os.Getenv("VERIF_WORKERS"); s != "" {
 		fmt.Sscanf(s, "%d", &workers)
 	}
